@@ -10,8 +10,9 @@ import re
 
 VERIF = os.path.dirname(os.path.dirname(os.path.abspath(__file__)))
 MISSED_FIRST = """C01-1 C01-2 C02-2 C03-1 C04-3 C06-1 C06-2 C06-3 C07-2 C08-1 C08-2 C08-3 C09-1 C09-3 C10-1 C11-2 C11-3 C12-1 C13-1 C13-2 C13-3
-C14-2 C15-3 C16-1 C16-3 C17-3 C19-1 C19-2 C20-2""".split()
-AE_FIRST = "C03-2 C04-1 C04-2 C05-1 C05-3 C09-2 C18-2".split()
+C14-2 C15-3 C16-1 C16-3 C17-3 C19-1 C19-2 C20-2 C22-1 C22-3
+C01-6 C02-5 C05-6 C07-4 C07-5 C09-6 C11-4 C11-5 C11-6 C16-4 C16-5 C16-6 C17-4 C17-6 C19-6""".split()
+AE_FIRST = "C03-2 C04-1 C04-2 C05-1 C05-3 C09-2 C18-2 C01-5 C03-4 C04-4 C04-5 C04-6 C05-4 C05-5 C06-6 C09-5 C17-5".split()
 
 
 def rule_of(line: str) -> str:
@@ -45,7 +46,18 @@ def main():
         if len(summ) > 150:
             summ = summ[:147] + "..."
         rows.append(f"| {s} | {summ.replace('|', '/')} | {first} | {verdict} | {', '.join(rules)} |")
-    table = "\n".join(["| seed | change | first evaluation | now | rule(s) that report it |", "|---|---|---|---|---|"] + rows)
+    def rnd(s_):
+        return 2 if int(s_.split("-")[1]) >= 4 else 1
+
+    stats = {}
+    for s_ in sorted(os.listdir(os.path.join(VERIF, "seeded"))):
+        if not os.path.isfile(os.path.join(VERIF, "seeded", s_, "meta.json")):
+            continue
+        first = "missed" if s_ in MISSED_FIRST else ("analysis-error" if s_ in AE_FIRST else "violation")
+        stats.setdefault(rnd(s_), {}).setdefault(first, 0)
+        stats[rnd(s_)][first] += 1
+    summary = "; ".join(f"round {r}: " + ", ".join(f"{v} {k}" for k, v in sorted(d.items())) for r, d in sorted(stats.items()))
+    table = f"First evaluation by round (kept seeds only): {summary}.\n\n" + "\n".join(["| seed | change | first evaluation | now | rule(s) that report it |", "|---|---|---|---|---|"] + rows)
     p = os.path.join(VERIF, "DESIGN.md")
     t = open(p).read()
     b, e = "<!-- SEED-TABLE-BEGIN -->", "<!-- SEED-TABLE-END -->"
